@@ -144,6 +144,14 @@ func ruleTotalOrder(id string) func(p *Prog, r *Res) {
 				if id, ok := e.(*ast.Ident); ok && id.Name == "nil" {
 					return true, ""
 				}
+				if conv, ok := e.(*ast.CallExpr); ok && len(conv.Args) == 1 {
+					// a conversion of nil: (func(a, b *Stream) bool)(nil)
+					if tv, ok := info.Types[conv.Fun]; ok && tv.IsType() {
+						if id, ok := ast.Unparen(conv.Args[0]).(*ast.Ident); ok && id.Name == "nil" {
+							return true, ""
+						}
+					}
+				}
 				if fl, ok := e.(*ast.FuncLit); ok {
 					if totalLit(fl) {
 						return true, ""
